@@ -366,6 +366,9 @@ func Main(id string, fn func(r *Run)) {
 		}
 		r.Scratch = d
 		ownScratch = true
+		// stand-alone run: let re-executed children share this directory instead of
+		// creating (and leaving behind) one of their own
+		os.Setenv("VERIF_SCRATCH", d)
 	}
 	r.Replay = getenv("VERIF_REPLAY", filepath.Join("/verif/replay", id))
 	r.res = Result{ID: id, Variant: r.Variant, Tier: r.Tier, Seed: r.Seed, Counters: map[string]int64{}, Extra: map[string]any{}, Samples: []any{}, Violations: []Violation{}}
@@ -378,6 +381,9 @@ func Main(id string, fn func(r *Run)) {
 	if mode := os.Getenv("VERIF_CHILD"); mode != "" {
 		if f, ok := childModes[mode]; ok {
 			f(r)
+			if ownScratch {
+				os.RemoveAll(r.Scratch)
+			}
 			os.Exit(0)
 		}
 		fmt.Fprintf(os.Stderr, "unknown child mode %q\n", mode)
